@@ -97,7 +97,7 @@ def new_stream(run, n, bit_ok):
     for k in range(n):
         name = "n%03d" % k
         pkg = ctorgen.gen_struct_pkg(rng, name, getset_dirs=rng.random() < 0.5)
-        flags = [f for f in NEW_FLAGS if rng.random() < 0.3]
+        flags = [f for f in NEW_FLAGS if rng.random() < 0.42]
         if "-short" in flags and "-opt" not in flags:
             flags.append("-opt")
         if sum(f.startswith("-tagcase") for f in flags) > 1:
@@ -139,7 +139,7 @@ def rest_stream(run, n, bit_ok):
     import restgen
     rng = run.rng
     res = []
-    for k in range(max(1, n // 3)):
+    for k in range(max(1, n // 2)):
         name = "r%03d" % k
         pkg = restgen.gen_iface_pkg(rng, name, n_ifaces=rng.randint(1, 3))
         files = restgen.render_go(pkg, "c01mod")
@@ -231,12 +231,12 @@ def coq_case(pkg, o, sigs, d, build_ok, gofmt_ok, bit_fixed, data):
             cs(s["first_line"]), cs(s["package"]), clist(cs(t) for t in s["tops"]),
             clist("(%s, %s)" % (cs(a), cs(b)) for a, b in s["meths"])))
     return ("{| c_pkg := %s; c_hand_tops := %s; c_hand_meths := %s; c_fields := %s; c_args := %s; c_data := %s; "
-            "c_bit_fixed := %s; c_exit0 := %s; c_files := %s; c_gofmt := %s; c_build := %s |}" % (
+            "c_bit_fixed := %s; c_exit0 := %s; c_abnormal := %s; c_files := %s; c_gofmt := %s; c_build := %s |}" % (
                 cs(pkg.name), clist(cs(t) for t in hand_tops),
                 clist("(%s, %s)" % (cs(a), cs(b)) for a, b in hand_meths),
                 clist("(%s, %s)" % (cs(a), cs(b)) for a, b in fields),
                 clist(cs(a) for a in o["args"]), "@DATA@", cb(bit_fixed), cb(o["rc"] == 0),
-                clist(files), cb(gofmt_ok), cb(build_ok)))
+                cb(o["timed_out"] or o["panicked"]), clist(files), cb(gofmt_ok), cb(build_ok)))
 
 
 def evaluate(run, rendered, shard=40):
@@ -333,6 +333,10 @@ def replay_witnesses(run, shoot):
     plans = {}
     for k, f in enumerate(run.findings()):
         lay = witness_layout(f.get("witness") or {}, k)
+        if lay and f["id"] != "K_bit_map" and any("-bit" in a for _, args in lay[1] for a in args):
+            # every -bit output fails to compile while K_bit_map is open (golden-locked): the compile verdict of
+            # another -bit witness says nothing about that finding; it is replayed by C14 (through the shim)
+            lay = None
         if lay:
             plans[f["id"]] = (k, lay)
             l2.write_files(mod, lay[0])
@@ -376,7 +380,19 @@ def main(run):
     run.log("runs: %d" % len(cases))
     mism_all = evaluate(run, rendered)
     outside = [idx for idx, v in mism_all if v // 10 == 9]
-    mism = [(idx, v) for idx, v in mism_all if v // 10 != 9]
+    # verdict 8: the property fails on an input of an excused class; excused ONLY while an open finding that owns
+    # such a class reproduces on this tree for that subcommand (81) / while a name-collision finding reproduces (82)
+    open_buggy = {f["id"] for f in run.findings() if f.get("status") != "fixed" and outcome.get(f["id"]) == "buggy"}
+    name_classes = {"K_opt_short_collision", "K_ctor_method_name_collision", "K_ctor_camel_collision", "K_rest_unexported_iface"}
+    by_cmd = {"new": ("K_ctor_", "K_opt_", "K_json_"), "enum": ("K_enum_", "K_bit_"), "rest": ("K_rest_",), "map": ("K_map_",)}
+    excused, unexcused = [], []
+    for idx, v in mism_all:
+        if v // 10 != 8:
+            continue
+        cmd = cases[idx]["obs"]["args"][0]
+        owners = (open_buggy & name_classes) if v == 82 else {k for k in open_buggy if k.startswith(by_cmd.get(cmd, ()))}
+        (excused if owners else unexcused).append((idx, v, sorted(owners)))
+    mism = [(idx, v) for idx, v in mism_all if v // 10 in (1, 2)] + [(idx, 20 + v % 10) for idx, v, _ in unexcused]
     for idx, v in mism[:5]:
         c = cases[idx]
         verdict, comp = v // 10, v % 10
@@ -418,8 +434,14 @@ def main(run):
         "selection_modes": modes, "subcommands": cmds, "features": feats,
         "exit_nonzero_cases": sum(1 for c in cases if c["obs"]["rc"] != 0),
         "cases_outside_the_guards_not_compared": len(outside),
-        "outside_input_class_of_the_generator_theorems": sum(1 for i, v in mism_all if v == 91),
-        "outside_name_guards_of_C01_theorems_and_not_compiling": sum(1 for i, v in mism_all if v == 92),
+        "outside_generator_guards_property_holds": sum(1 for i, v in mism_all if v == 91),
+        "outside_generator_guards_property_fails_excused_by_open_findings": [
+            {"command": "shoot " + " ".join(cases[i]["obs"]["args"]), "package": cases[i]["pkg"].name, "open_findings_of_the_class": o}
+            for i, v, o in excused if v == 81][:12],
+        "name_collision_class_property_fails_excused_by_open_findings": [
+            {"command": "shoot " + " ".join(cases[i]["obs"]["args"]), "package": cases[i]["pkg"].name, "open_findings_of_the_class": o}
+            for i, v, o in excused if v == 82][:12],
+        "excused_cases": len(excused),
         "findings_measured": outcome,
         "samples": [{"package": c["pkg"].name, "command": "shoot " + " ".join(c["obs"]["args"]),
                      "written": c["obs"]["written"], "go_build_ok": c["build_ok"], "gofmt_clean": c["gofmt_ok"],
